@@ -5,8 +5,9 @@ import NeumannModel.KV.Lemmas
   Specification: `scan(prefix)` returns exactly the keys that are present and start with `prefix`
   (byte-wise, `str::starts_with`).  The code (`SlabRouter::scan`, Model.`scanNow`): the entity index
   and the cache ring filter by `starts_with`; `MetadataSlab::scan` reads the shard of the prefix's
-  first byte and there the `BTreeMap` range `prefix .. next_prefix(prefix)` - or `prefix ..`, the
-  rest of the shard, when `next_prefix` is `None`.
+  first byte and there the `BTreeMap` range `prefix .. next_prefix(prefix)` - or, when `next_prefix`
+  is `None`, `range(prefix ..)` while the key starts with the prefix (repo 27855097; before that
+  commit: the rest of the shard, Model.`scanNowOld`).
 -/
 namespace Neumann.KV.ScanProps
 open Neumann.KV
@@ -16,6 +17,36 @@ open Neumann.KV
 def ScanExact (scan : Store → List Nat → List Key) : Prop :=
   ∀ (s : Store) (p : List Nat), validUtf8 p = true →
     ∀ k, k ∈ scan s p ↔ (isPfx p k.bytes = true ∧ k ∈ scan s [])
+
+/-- FULL STRENGTH for the current code: EVERY store (any slabs, any keys - any byte strings, of
+    every class, in the metadata slab, the entity index or the cache ring), EVERY prefix that is a
+    string (with or without an end key, cutting across key classes or not, empty or not), every
+    key: `SlabRouter::scan(p)` lists the key iff the key starts with `p` and is listed at all; the
+    metadata range selects `k` iff `k` starts with `p`. -/
+theorem scan_exact : ScanExact scanNow ∧
+    ∀ (p : List Nat), validUtf8 p = true → ∀ k, mdMatch p k = isPfx p k.bytes := by
+  refine ⟨?_, fun p hv k => mdMatch_eq_pmatch hv k⟩
+  intro s p hv k
+  have hm : ∀ k, mdMatch p k = pmatch p k := fun k => mdMatch_eq_pmatch hv k
+  have h0 : ∀ k, mdMatch [] k = true := fun k => by simp [mdMatch]
+  simp only [scanNow, List.mem_append, List.mem_filter, hm, h0, pmatch, isPfx_nil_left, and_true]
+  grind
+
+/-- non-vacuity: prefix `e` over a store with a metadata key, an entity-index key without
+    metadata, a cache key and keys of other shards / other first letters; the prefix `a` DEL (no
+    end key) over a store with `q1` in the same shard; `ÿ` over `ӿx` and `ÿ1` -/
+example :
+    validUtf8 [101] = true ∧ validUtf8 [97, 127] = true ∧ validUtf8 [195, 191] = true ∧
+    scanNow { md := [(⟨[101, 118, 101]⟩, ⟨1, .none⟩), (mkKey .plain 1, ⟨2, .none⟩), (mkKey .emb 1, ⟨3, .good 3⟩)],
+              vocab := [(mkKey .emb 1, true), (mkKey .emb 2, true), (mkKey .emb 3, false)],
+              cache := [(mkKey .cache 1, ⟨4, .none⟩)] } [101]
+      = [⟨[101, 118, 101]⟩, mkKey .emb 1, mkKey .emb 1, mkKey .emb 2] ∧
+    scanNow { md := [(⟨[97, 127, 120]⟩, ⟨2, .none⟩), (⟨[113, 49]⟩, ⟨1, .none⟩)] } [97, 127]
+      = [⟨[97, 127, 120]⟩] ∧
+    scanNow { md := [(⟨[211, 191, 120]⟩, ⟨1, .none⟩), (⟨[195, 191, 49]⟩, ⟨1, .none⟩)] } [195, 191]
+      = [⟨[195, 191, 49]⟩] ∧
+    (runSched false [[.put ⟨[113, 49]⟩ ⟨1, .none⟩, .put ⟨[97, 127, 120]⟩ ⟨2, .none⟩, .scan [97, 127]]]
+        [0, 0, 0]).hist.map (·.res) = [.ok, .ok, .keys [⟨[97, 127, 120]⟩]] := by decide
 
 /-- FULL STRENGTH for the mechanism `next_prefix` relies on: for EVERY byte string `q`, byte `b` and
     key `k` (any bytes, any length), `k` lies in the range `q ++ [b] .. q ++ [b + 1]` of the byte-wise
@@ -76,94 +107,76 @@ example : (∀ p ∈ [pfxUser, pfxNode, pfxEdge, pfxTable, pfxCache, pfxEmb], bo
     nextPrefix [0xC3, 0xA9] = some [0xC3, 0xAA] ∧ nextPrefix [0xD0, 0xBF] = none ∧
     nextPrefix [0xC3, 0xBF] = none ∧ nextPrefix [97, 0x7F] = none := by decide
 
-/-- FULL STRENGTH on prefixes with an end key: for EVERY store (any slabs, any keys - any byte
-    strings) and every such prefix, `SlabRouter::scan` lists exactly the keys it lists at all that
-    start with the prefix; the metadata range selects key `k` iff `k` starts with the prefix -/
-theorem scan_exact_on_bounded_prefix (s : Store) (p : List Nat) (hb : boundedPrefix p = true) (k : Key) :
-    (k ∈ scanNow s p ↔ (isPfx p k.bytes = true ∧ k ∈ scanNow s [])) ∧
-    mdMatch p k = isPfx p k.bytes := by
-  refine ⟨?_, mdMatch_eq_pmatch hb k⟩
-  rw [mem_scanNow_iff s p k, mem_scanNow_iff s [] k, mdMatch_eq_pmatch hb]
-  simp only [pmatch, mdMatch, if_true, isPfx_nil_left, true_and]
-  grind
-
-/-- non-vacuity: prefix `e` over a store with a metadata key, an entity-index key without
-    metadata, a cache key and keys of other shards / other first letters -/
-example :
-    boundedPrefix [101] = true ∧
-    scanNow { md := [(⟨[101, 118, 101]⟩, ⟨1, .none⟩), (mkKey .plain 1, ⟨2, .none⟩), (mkKey .emb 1, ⟨3, .good 3⟩)],
-              vocab := [(mkKey .emb 1, true), (mkKey .emb 2, true), (mkKey .emb 3, false)],
-              cache := [(mkKey .cache 1, ⟨4, .none⟩)] } [101]
-      = [⟨[101, 118, 101]⟩, mkKey .emb 1, mkKey .emb 1, mkKey .emb 2] := by decide
-
-/-- THE CODE AS IT IS does not have the property (sequential, one thread).  `put("q1")`,
-    `put("a\x7fx")`, `scan("a\x7f")` returns BOTH keys: `next_prefix("a\x7f")` builds the bytes
-    `61 80`, which are not UTF-8, answers `None`, and `MetadataSlab::scan` falls back to "the rest
-    of the shard" (`q` and `a` are both 1 mod 16).  The same with `put("ӿx")` (D3 BF 78) and
-    `scan("ÿ")` (C3 BF).  In general (`mdMatch`): for a prefix whose last byte is `0x7F` / `0xBF` the
-    scan returns every metadata key of the shard that is ≥ the prefix. -/
-theorem scan_prefix_without_successor_witness :
-    (runSched false [[.put ⟨[113, 49]⟩ ⟨1, .none⟩, .put ⟨[97, 127, 120]⟩ ⟨2, .none⟩, .scan [97, 127]]]
-        [0, 0, 0]).hist.map (·.res) = [.ok, .ok, .keys [⟨[97, 127, 120]⟩, ⟨[113, 49]⟩]] ∧
+/-- THE CODE BEFORE 27855097 (`scanNowOld`) did not have the property (sequentially, no threads
+    needed).  With `q1` and `a\x7fx` in the store, `scan("a\x7f")` returned BOTH keys:
+    `next_prefix("a\x7f")` builds the bytes `61 80`, which are not UTF-8, answers `None`, and
+    `MetadataSlab::scan` fell back to "the rest of the shard" (`q` and `a` are both 1 mod 16).  The
+    same with `ӿx` (D3 BF 78) and `scan("ÿ")` (C3 BF).  On the current code the same stores give
+    the exact answers. -/
+theorem scan_prefix_without_successor_old_witness :
+    scanNowOld { md := [(⟨[97, 127, 120]⟩, ⟨2, .none⟩), (⟨[113, 49]⟩, ⟨1, .none⟩)] } [97, 127]
+      = [⟨[97, 127, 120]⟩, ⟨[113, 49]⟩] ∧
     isPfx [97, 127] [113, 49] = false ∧
-    (runSched false [[.put ⟨[211, 191, 120]⟩ ⟨1, .none⟩, .scan [195, 191]]] [0, 0]).hist.map (·.res)
-      = [.ok, .keys [⟨[211, 191, 120]⟩]] ∧
+    scanNowOld { md := [(⟨[211, 191, 120]⟩, ⟨1, .none⟩)] } [195, 191] = [⟨[211, 191, 120]⟩] ∧
     isPfx [195, 191] [211, 191, 120] = false ∧
     validUtf8 [97, 127] = true ∧ validUtf8 [195, 191] = true ∧
     boundedPrefix [97, 127] = false ∧ boundedPrefix [195, 191] = false ∧
-    ¬ ScanExact scanNow := by
-  refine ⟨by decide, by decide, by decide, by decide, by decide, by decide, by decide, by decide, ?_⟩
+    ¬ ScanExact scanNowOld ∧
+    scanNow { md := [(⟨[97, 127, 120]⟩, ⟨2, .none⟩), (⟨[113, 49]⟩, ⟨1, .none⟩)] } [97, 127]
+      = [⟨[97, 127, 120]⟩] ∧
+    scanNow { md := [(⟨[211, 191, 120]⟩, ⟨1, .none⟩)] } [195, 191] = [] := by
+  refine ⟨by decide, by decide, by decide, by decide, by decide, by decide, by decide, by decide, ?_,
+    by decide, by decide⟩
   intro h
   have := (h { md := [(⟨[113, 49]⟩, ⟨1, .none⟩)] } [97, 127] (by decide) ⟨[113, 49]⟩).mp (by decide)
   revert this
   decide
 
-/-- the over-return is EXACTLY the rest of the shard: for every store and every prefix that is a
-    string WITHOUT an end key, the scan lists a key iff it starts with the prefix and is listed at
-    all, or it is a metadata key of the prefix's shard that is greater than the prefix -/
-theorem scan_unbounded_prefix_returns_rest_of_shard (s : Store) (p : List Nat)
-    (hv : validUtf8 p = true) (hb : boundedPrefix p = false) (k : Key) :
-    k ∈ scanNow s p ↔ ((isPfx p k.bytes = true ∧ k ∈ scanNow s []) ∨
-      ((aget s.md k).isSome = true ∧ shardOf k.bytes = shardOf p ∧ bleq p k.bytes = true)) := by
-  have hp : p ≠ [] := by rintro rfl; simp [boundedPrefix] at hb
-  have hn : nextPrefix p = none := by
-    cases p with
-    | nil => exact absurd rfl hp
-    | cons x p =>
-      simp only [boundedPrefix, List.isEmpty_cons, hv, Bool.true_and, Bool.false_or] at hb
-      cases hnp : nextPrefix (x :: p) with
-      | none => rfl
-      | some e => rw [hnp] at hb; simp at hb
-  rw [mem_scanNow_iff s p k, mem_scanNow_iff s [] k]
-  simp only [mdMatch, hp, if_false, hn, if_true, pmatch, isPfx_nil_left, true_and,
-    Bool.and_eq_true, decide_eq_true_eq]
+/-- the defect of the old code was confined to the prefixes without an end key, and there the
+    over-return was EXACTLY the rest of the shard: for every store, on a prefix with an end key the
+    old scan was exact; on a string without one it listed a key iff the key starts with the prefix
+    and is listed at all, or is a metadata key of the prefix's shard that is greater than the prefix -/
+theorem scan_old_exact_iff_prefix_bounded (s : Store) (p : List Nat) (hv : validUtf8 p = true) (k : Key) :
+    (boundedPrefix p = true → (k ∈ scanNowOld s p ↔ (isPfx p k.bytes = true ∧ k ∈ scanNowOld s []))) ∧
+    (boundedPrefix p = false → (k ∈ scanNowOld s p ↔ ((isPfx p k.bytes = true ∧ k ∈ scanNowOld s []) ∨
+      ((aget s.md k).isSome = true ∧ shardOf k.bytes = shardOf p ∧ bleq p k.bytes = true)))) := by
+  have hmem : ∀ q, k ∈ scanNowOld s q ↔ ((mdMatchOld q k = true ∧ (aget s.md k).isSome = true) ∨
+      (pmatch q k = true ∧ (k ∈ liveKeys s.vocab ∨ (aget s.cache k).isSome = true))) := by
+    intro q
+    simp only [scanNowOld, List.mem_append, List.mem_filter, mem_keys_iff]
+    grind
   constructor
-  · rintro (⟨⟨h1, h2⟩, h3⟩ | ⟨h1, h2⟩)
-    · exact Or.inr ⟨h3, h1, h2⟩
-    · exact Or.inl ⟨h1, Or.inr h2⟩
-  · rintro (⟨h1, h2 | h2⟩ | ⟨h1, h2, h3⟩)
-    · exact Or.inl ⟨⟨shardOf_of_isPfx hp h1, bleq_of_isPfx h1⟩, h2⟩
-    · exact Or.inr ⟨h1, h2⟩
-    · exact Or.inl ⟨⟨h2, h3⟩, h1⟩
+  · intro hb
+    rw [hmem p, hmem [], mdMatchOld_eq_pmatch hb]
+    simp only [pmatch, mdMatchOld, if_true, isPfx_nil_left, true_and]
+    grind
+  · intro hb
+    have hp : p ≠ [] := by rintro rfl; simp [boundedPrefix] at hb
+    have hn : nextPrefix p = none := by
+      cases p with
+      | nil => exact absurd rfl hp
+      | cons x p =>
+        simp only [boundedPrefix, List.isEmpty_cons, hv, Bool.true_and, Bool.false_or] at hb
+        cases hnp : nextPrefix (x :: p) with
+        | none => rfl
+        | some e => rw [hnp] at hb; simp at hb
+    rw [hmem p, hmem []]
+    simp only [mdMatchOld, hp, if_false, hn, if_true, pmatch, isPfx_nil_left, true_and,
+      Bool.and_eq_true, decide_eq_true_eq]
+    constructor
+    · rintro (⟨⟨h1, h2⟩, h3⟩ | ⟨h1, h2⟩)
+      · exact Or.inr ⟨h3, h1, h2⟩
+      · exact Or.inl ⟨h1, Or.inr h2⟩
+    · rintro (⟨h1, h2 | h2⟩ | ⟨h1, h2, h3⟩)
+      · exact Or.inl ⟨⟨shardOf_of_isPfx hp h1, bleq_of_isPfx h1⟩, h2⟩
+      · exact Or.inr ⟨h1, h2⟩
+      · exact Or.inl ⟨⟨h2, h3⟩, h1⟩
 
-/-- THE REPAIR (proposed/C11-scan-prefix-without-successor.diff: where there is no end key,
-    `range(prefix..).take_while(|(k, _)| k.starts_with(prefix))`) has the property at FULL
-    STRENGTH: every store, every prefix that is a string, every key -/
-theorem scan_fixed_exact : ScanExact scanNowFixed := by
-  intro s p hv k
-  have hm : ∀ k, mdMatchFixed p k = pmatch p k := fun k => mdMatchFixed_eq_pmatch hv k
-  have h0 : ∀ k, mdMatchFixed [] k = true := fun k => by simp [mdMatchFixed]
-  simp only [scanNowFixed, List.mem_append, List.mem_filter, hm, h0, pmatch, isPfx_nil_left, and_true]
-  grind
+/-- non-vacuity of both branches -/
+example : boundedPrefix pfxUser = true ∧ boundedPrefix (pfxUser ++ [0xD0, 0xBF]) = false ∧
+    validUtf8 (pfxUser ++ [0xD0, 0xBF]) = true := by decide
 
-/-- non-vacuity: the two inputs of the witness on the repaired scan -/
-example :
-    scanNowFixed { md := [(⟨[97, 127, 120]⟩, ⟨2, .none⟩), (⟨[113, 49]⟩, ⟨1, .none⟩)] } [97, 127]
-      = [⟨[97, 127, 120]⟩] ∧
-    scanNowFixed { md := [(⟨[211, 191, 120]⟩, ⟨1, .none⟩), (⟨[195, 191, 49]⟩, ⟨1, .none⟩)] } [195, 191]
-      = [⟨[195, 191, 49]⟩] := by decide
-
-/-- why `take_while` is enough in the repair: on a SORTED list of strings that are all ≥ `p` (what
+/-- why `take_while` is enough in the code: on a SORTED list of strings that are all ≥ `p` (what
     `BTreeMap::range(p..)` yields) the keys that start with `p` come first, so taking while a key
     starts with `p` yields the same list as filtering by it - for every `p` and every such list -/
 theorem take_while_on_sorted_range_is_the_prefix_filter (p : List Nat) (l : List (List Nat))
